@@ -280,3 +280,33 @@ func guardSlice[T comparable](g *tailGuard, s []T, fill T) []T {
 	})
 	return arr[:n]
 }
+
+// limbPattern returns the value whose four 64-bit limbs (from the top) are those of c minus one / equal / plus one according to pat ("m", "e", "p")
+func limbPattern(c *big.Int, pat string) *big.Int {
+	v := new(big.Int)
+	mask := new(big.Int).SetUint64(^uint64(0))
+	for i := 0; i < 4; i++ {
+		limb := new(big.Int).Rsh(c, uint(64*(3-i)))
+		limb.And(limb, mask)
+		switch pat[i] {
+		case 'm':
+			if limb.Sign() > 0 {
+				limb.Sub(limb, big.NewInt(1))
+			}
+		case 'p':
+			if limb.Cmp(mask) < 0 {
+				limb.Add(limb, big.NewInt(1))
+			}
+		}
+		v.Lsh(v, 64)
+		v.Add(v, limb)
+	}
+	return v
+}
+
+// pattern number k in base 3 over the four limbs (top first)
+func patOf(k int) string {
+	d := "mep"
+	k %= 81
+	return string([]byte{d[k/27], d[(k/9)%3], d[(k/3)%3], d[k%3]})
+}
